@@ -247,6 +247,11 @@ class DictDecoder:
         """
         # xs:anyAttributes get it out of the way, it's the mapping exception!
         if var.is_attributes:
+            if not isinstance(value, dict):
+                raise ParserError(
+                    f"Expected an object for {meta.clazz.__qualname__}.{var.name}, "
+                    f"got {type(value).__name__}"
+                )
             return dict(value)
 
         # Repeating element, recursively bind the values
